@@ -77,6 +77,15 @@ def check_transactional(ctx):
         muts = _mutations(cfg)
         ctx.require(len(muts) >= 2, f"{q}: fewer than two table mutations found")
         loops = [n for n in cfg.nodes if n.kind == "iter" and norm(n.ast.iter).endswith(".DATA")]
+        if len(loops) == 1:
+            L1 = loops[0]
+            body = rules.branch_marker(L1, "true")
+            ack_in_loop = [n for n in cfg.real_nodes() if isinstance(n.ast, ast.Assign) and norm(n.ast.targets[0]) == ack and cfg.path_exists(body, n, avoid=[L1])]
+            muts_in_loop = [(n, h) for n, h in muts if cfg.path_exists(body, n, avoid=[L1])]
+            if ack_in_loop and muts_in_loop:
+                ctx.ob("C12.P1", q, False, f"one pass over the request both checks an entry and applies it (`{muts_in_loop[0][1]}`): the entries in front of a faulty one are already applied when the request "
+                       "is refused with a non-zero acknowledge", key="check-complete", where=f.where)
+                continue
         ctx.require(len(loops) >= 2, f"{q}: pre-check and apply passes over function.DATA not found")
         pre = loops[0]
         pre_done = rules.branch_marker(pre, "false")
